@@ -411,7 +411,11 @@ func (c *child) allocMutants(b *abase, full bool, rng *vf.RNG) (hotMs, ms []amut
 	if L > 256<<10 {
 		// large payloads: only the fields that size them, and the very first bytes
 		offs = map[int]bool{}
-		for o := 0; o < vf.N(1, 6) && o < lim; o++ {
+		first := vf.N(1, 6)
+		if L > 8<<20 {
+			first = 1
+		}
+		for o := 0; o < first && o < lim; o++ {
 			offs[o] = true
 		}
 	}
@@ -504,8 +508,8 @@ func (c *child) allocBatch(rng *vf.RNG) {
 			if sh.maxL > 0 && L > sh.maxL {
 				continue
 			}
-			if sh.pad && L > 1<<20 && L < pc.MAX_PAYLOAD_LEN {
-				continue // trailing bytes are never looked at: two sizes say it all
+			if sh.pad && L > 48<<10 && L < pc.MAX_PAYLOAD_LEN && !(vf.Thorough() && L == 1<<20) {
+				continue // trailing bytes are never looked at: two or three sizes say it all
 			}
 			if c.batch.Round > 0 {
 				L += 1 + rng.Sub(uint64(si*16+li)).Intn(L/8)
@@ -515,7 +519,7 @@ func (c *child) allocBatch(rng *vf.RNG) {
 			}
 			b, ok := buildBase(sp, sh, L, rng.Sub(uint64(c.batch.Round)))
 			if !ok {
-				c.count("alloc_shape_not_scalable")
+				c.count("alloc_base_unbuildable")
 				continue
 			}
 			if len(b.payload) > pc.MAX_PAYLOAD_LEN {
@@ -652,9 +656,6 @@ func (c *child) allocBatch(rng *vf.RNG) {
 				}
 				if m.total > row.MaxHost {
 					row.MaxHost = m.total
-				}
-				if m.total > c.maxAlloc {
-					c.maxAlloc = m.total
 				}
 			}
 			c.calib(row)
